@@ -537,6 +537,9 @@ def _abstract_rstrip(E, s):
 
 @model('dateutil.parser.parse')
 def m_dateutil_parse(E, a, kw):
+    if kw or len(a) != 1:
+        # dayfirst / yearfirst / default / fuzzy ... change what the text means: the assumed contract covers parse(text) only
+        raise Unsupported('dateutil.parser.parse with options %s (the assumed contract is for parse(text))' % sorted(kw))
     s = a[0]
     from .models import reify
     if isinstance(s, VSeq) and s.tag and s.tag[0] == 'strftime' and s.tag[2] == '%Y-%m-%d %H:%M:%S':
